@@ -69,8 +69,8 @@ def make_solver(case_fam, gseed):
     nfr = int(rng.integers(3, 5))
     ats = dyn.random_series(rng, at0, nfr, frac=0.5)
     # segmentation-like noise on the interior points: the two circle fits then differ materially, as on real data
-    s = dyn.build(rng, ats, np.cumsum(rng.uniform(0.5, 2.0, nfr)), k=int(rng.integers(2, 6)), relabel=True,
-                  jitter=float(rng.choice([0.0, 0.05, 0.15])))
+    s = dyn.build(rng, ats, np.cumsum(rng.uniform(0.5, 2.0, nfr)), k=int(rng.integers(2, 6)) if gseed[2] % 5 else int(rng.integers(0, 2)),
+                  relabel=True, jitter=float(rng.choice([0.0, 0.05, 0.15])))
     return fs.ForSys(s.frames, cm=False), nfr
 
 
